@@ -110,12 +110,19 @@ class Mirror:
             model_items.append((nm, self.atoms(nm, amt, unit, ds)))
         dup = False
         if allow_dup and r.random() < 0.08:
-            nm = picks[0]
-            other_key = respell(r, nm) if not isinstance(next(iter(arg)), str) or True else nm
+            # a second key for an already named nuclide: any spelling kind (canonical string, respelling, id, Nuclide
+            # object), placed before or after the first one
+            j = r.randrange(len(picks))
+            nm = picks[j]
+            other_key = r.choice([nm, respell(r, nm), self.rd.Nuclide(nm).id, self.rd.Nuclide(nm), respell(r, nm)])
             if other_key not in arg:
                 amt = self.rand_amount()
-                arg[other_key] = amt
-                model_items.append((nm, self.atoms(nm, amt, unit, ds)))
+                if r.random() < 0.5:
+                    arg = {other_key: amt, **arg}
+                    model_items.insert(0, (nm, self.atoms(nm, amt, unit, ds)))
+                else:
+                    arg[other_key] = amt
+                    model_items.append((nm, self.atoms(nm, amt, unit, ds)))
                 dup = True
         return arg, unit, model_items, dup
 
@@ -204,8 +211,12 @@ class Mirror:
             names = r.sample(present, min(len(present), r.choice([1, 1, 2])))
         elif k < 0.85:
             names = [r.choice(self.names)]
-        else:
+        elif k < 0.94 or not present:
             names = (r.sample(present, 1) if present else []) + [r.choice(self.names)]
+        else:
+            # a list naming a present nuclide twice (possibly in two spellings), after another present one
+            first = r.sample(present, min(len(present), 2))
+            names = first + [first[0]]
         keys = [self.rand_key(n) for n in names]
         arg = keys[0] if len(keys) == 1 and r.random() < 0.6 else keys
         self.log.append(f"h{h}.remove({arg!r})")
